@@ -197,7 +197,7 @@ def plan(tier, seed):
         sched(3, 2, 1, 32)
         sched(4, 1, 1, 16, stride=8, offset=seed % 8)
         sched(5, 1, 1, 32, stride=32, offset=seed % 32)
-        bounds = {'plain': 'DFA(n<=3,k<=2), DFA(4,1) all; DFA(4,2) stride 1/64; DFA(5,1) stride 1/16', 'scheduled': 'd<=2 on DFA(n<=2,k<=2), DFA(3,1); d<=1 on DFA(3,2); d<=1 on DFA(4,1) stride 1/8 and DFA(5,1) stride 1/32'}
+        bounds = {'plain': 'DFA(n<=3,k<=2), DFA(4,1) all; DFA(4,2) stride 1/64; DFA(5,1) stride 1/16; anchored-swap family (13 states) all, (14 states) stride 1/4; prime-step progressions through DFA(5,2) (step 20011), DFA(6,2) (step 8000051), DFA(7,2) (step 20000000089)', 'scheduled': 'd<=2 on DFA(n<=2,k<=2), DFA(3,1); d<=1 on DFA(3,2); d<=1 on DFA(4,1) stride 1/8 and DFA(5,1) stride 1/32'}
     else:
         plain(4, 2, 64)
         plain(5, 1, 32)
@@ -207,7 +207,7 @@ def plan(tier, seed):
         sched(3, 2, 2, 64)
         sched(4, 1, 2, 32)
         sched(5, 1, 1, 64, stride=2)
-        bounds = {'plain': 'DFA(n<=3,k<=2), DFA(4,1), DFA(4,2) (4 194 304), DFA(5,1) (500 000) all', 'scheduled': 'd<=3 on DFA(n<=2,k<=2), DFA(3,1); d<=2 on DFA(3,2), DFA(4,1); d<=1 on DFA(5,1) stride 1/2'}
+        bounds = {'plain': 'DFA(n<=3,k<=2), DFA(4,1), DFA(4,2) (4 194 304), DFA(5,1) (500 000) all; anchored-swap families all; prime-step progressions through DFA(5,2) (step 997), DFA(6,2) (step 400009), DFA(7,2) (step 1000000007)', 'scheduled': 'd<=3 on DFA(n<=2,k<=2), DFA(3,1); d<=2 on DFA(3,2), DFA(4,1); d<=1 on DFA(5,1) stride 1/2'}
     return {'tasks': tasks, 'bounds': bounds, 'exhaustive': True,
             'rule': 'every labelled DFA in the bounds x 3 minimisers; scheduled layer: every execution with <= d set-order deviations (boost lists) from the canonical global order, plus one execution under CPython order; states = distinct trace digests (+ instances in the plain layer); non-trivial = at least one merge and one split (1 < #classes < |Q|)',
             'assumptions': ['set iteration order is a global total order on elements within one execution (DESIGN 3.4)', 'strided layers select index % K == VERIF_SEED % K', 'small spaces also with GambaTools.enable_logging = True and through one live DFA rewritten in place', 'wave 5: anchored-swap family (13-14 states, 4 letters, all states pairwise distinguishable, 1 560 / 1 848 automata), alphabets of 5-6 letters, names with non-decimal digits / generated-looking / keyword-like, transition dict filled in other orders, per-object set-order policies on DFA(2,2), DFA(3,1)', 'wave 6: prime-step progressions through DFA(5,2), DFA(6,2), DFA(7,2) (about 78 000 / 104 000 / 30 000 automata in quick): not exhaustive for these spaces, stated as what it is; names made of braces / parentheses and normalisation-unstable code points']}
